@@ -389,10 +389,158 @@ def mentioned(token, text):
     return re.search(r'(?<![\w-])' + re.escape(token) + r'(?!\w)', text) is not None
 
 
+def evaluate(g, lib, ff):
+    """one native run against the oracle -> (result of the run, [(key, function, what, observed, expected)])."""
+    res = run_real(g, ff)
+    viols = []
+    if res['exc'] is not None:
+        stage, key, where, text = res['exc']
+        viols.append(('%s/raises:%s' % (stage, key), where if where != 'unknown' else stage,
+                      'canonicalisation stops with an exception on a well-formed molecule, so its unrecognised '
+                      'atoms are neither explained nor reported', text, 'normal termination'))
+        return res, viols
+
+    # branches
+    want = set(branches(g))
+    if set(res['branches']) != want or len(res['branches']) != len(want):
+        viols.append(('find_ptm_atoms/branches', 'find_ptm_atoms',
+                      'unrecognised atoms are not grouped into connected branches with their anchors',
+                      sorted((sorted(a, key=repr), sorted(b, key=repr)) for a, b in res['branches']),
+                      sorted((sorted(a, key=repr), sorted(b, key=repr)) for a, b in want)))
+
+    out_nodes, labels = res['nodes'], res['labels']
+    removed = [k for k in g.added if k not in out_nodes]
+    kept = [k for k in g.added if k in out_nodes]
+    warns = [r[2] for r in res['records'] if r[0] >= logging.WARNING and r[1] == 'unknown-input']
+
+    # removed => reported
+    if removed and not warns:
+        viols.append(('fix_ptm/removed-without-warning', FN, 'unrecognised atoms were removed without an '
+                      'unknown-input warning', dict(removed=removed, records=res['records']),
+                      'an unknown-input warning'))
+    elif removed:
+        for k in removed:
+            a = g.nodes[k]
+            tokens = ['%s-%s' % (a['atomid'], a['atomname']), '%s%s' % (a['resname'], a['resid'])]
+            if not any(mentioned(t, w) for t in tokens for w in warns):
+                viols.append(('fix_ptm/removed-atom-not-reported', FN, 'a removed atom is mentioned by none of the '
+                              'unknown-input warnings (neither the atom nor its residue)',
+                              dict(removed=k, warnings=warns), 'a warning naming %s' % ' or '.join(tokens)))
+                break
+
+    # kept => explained
+    if kept:
+        observed = dict(kept={str(k): dict(atomname=out_nodes[k].get('atomname'), labels=labels.get(k))
+                              for k in kept}, removed=removed)
+        if any(not labels.get(k) for k in kept):
+            viols.append(('fix_ptm/kept-unlabelled', FN, 'an unrecognised atom is kept without any modification label',
+                          observed, 'labelled with the covering modification, or removed with a warning'))
+        if not explain(g, lib, out_nodes, labels, 2):
+            if not explain(g, lib, out_nodes, labels, 0):
+                viols.append(('fix_ptm/kept-unexplained', FN, 'the unrecognised atoms that were kept cannot be '
+                              'partitioned into induced placements of library modifications (anchors by name, '
+                              'added atoms by element)', observed,
+                              'atoms without an exact cover are removed with an unknown-input warning'))
+            elif not explain(g, lib, out_nodes, labels, 1):
+                viols.append(('fix_ptm/canonical-attributes', FN, 'no exact cover is consistent with the atom names '
+                              '/ replace attributes found on the kept atoms',
+                              dict(observed, nodes={str(k): out_nodes[k] for k in out_nodes}),
+                              'every covered atom carries the canonical name and attribute changes of its '
+                              'modification atom'))
+            else:
+                viols.append(('fix_ptm/residue-labels', FN, 'no exact cover (consistent with the names) has all '
+                              'atoms of the residues it touches labelled with its modifications',
+                              dict(observed, labels={str(k): v for k, v in labels.items()}),
+                              'all atoms of the touched residues carry the modification that covers the atom'))
+
+    # cover exists (narrowest reading) => not removed
+    if removed:
+        for key, members in strict_groups(g).items():
+            atoms = set().union(*[c for c, _ in members])
+            gone = sorted((k for k in atoms if k not in out_nodes), key=repr)
+            if gone and strict_cover_exists(g, lib, key, members):
+                viols.append(('fix_ptm/removed-although-cover-exists', FN, 'atoms were removed although the known '
+                              'modifications cover their group exactly (within the anchor residues, all anchors '
+                              'covered)', dict(removed=gone, warnings=warns), 'kept and labelled'))
+                break
+    return res, viols
+
+
+# --- telling the known "label leak" apart -------------------------------------------------------------------------
+# Known genuine defect of the unchanged tree: when one group of unrecognised atoms has been identified, EVERY atom
+# with one of its residue numbers is labelled - also the unrecognised atoms of a group that is handled later. That
+# later group is then treated as "already labelled by a known modification" and matched by ATOM NAME only. Usually
+# this ends in one of two assertion errors; when the names of the later group's atoms happen to coincide with atom
+# names of the modification it ends in wrongly kept / wrongly named atoms, i.e. under the generic clause keys.
+# The diagnosis below uses the INPUT and extra native runs only (nothing of the code's internals):
+#   (a) two different groups interact through a residue: an unrecognised atom of one group carries a residue number
+#       that is an anchor residue number of another group,
+#   (b) (generic keys only) an unrecognised atom is named like an atom of a library modification,
+#   (c) the same violation key does NOT show up when every group is presented on its own (all recognised atoms +
+#       the unrecognised atoms of that one group).
+# Generic clause violations with (a)+(b)+(c) get the suffix '+label-leak'. The two assertion errors are the leak's
+# ordinary symptom and keep their plain key when (a)+(c) hold; if they show up without group interaction (so from
+# some other cause) they get the suffix '+isolated'.
+LEAK_GENERIC = ('fix_ptm/kept-unexplained', 'fix_ptm/canonical-attributes', 'fix_ptm/residue-labels',
+                'fix_ptm/kept-unlabelled', 'fix_ptm/removed-although-cover-exists')
+LEAK_CRASH_PREFIX = 'fix_ptm/raises:AssertionError@identify_ptms['
+
+
+def groups_interact(g):
+    info = []
+    for key, members in strict_groups(g).items():
+        atoms = set().union(*[c for c, _ in members])
+        info.append((set(key), {g.nodes[k]['resid'] for k in atoms}))
+    for i, (anchor_resids, _) in enumerate(info):
+        for j, (_, atom_resids) in enumerate(info):
+            if i != j and anchor_resids & atom_resids:
+                return True
+    return False
+
+
+def names_collide(g, lib):
+    names = {a[1] for m in lib for a in m['atoms']}
+    return any(g.nodes[k]['atomname'] in names for k in g.added)
+
+
+def keys_when_separate(g, lib, ff):
+    """violation keys seen when each group of unrecognised atoms is presented alone."""
+    seen = set()
+    for members in strict_groups(g).values():
+        mine = set().union(*[c for c, _ in members])
+        keep = {k for k, _ in g.atoms if k not in g.added or k in mine}
+        sub = G([(k, a) for k, a in g.atoms if k in keep], [(a, b) for a, b in g.edges if a in keep and b in keep])
+        seen |= {v[0] for v in evaluate(sub, lib, ff)[1]}
+    return seen
+
+
+def classify(g, lib, ff, viols, recorded=()):
+    """final keys: see the comment block above. `recorded`: keys that have been reported already (a repeated
+    plain assertion-error key on interacting groups needs no new diagnosis: a cause other than the leak would
+    show on single-group inputs as well, where no extra run is needed to tell)."""
+    generic = [v for v in viols if v[0] in LEAK_GENERIC]
+    crash = [v for v in viols if v[0].startswith(LEAK_CRASH_PREFIX)]
+    if not generic and not crash:
+        return viols
+    interact = groups_interact(g)
+    if interact and not generic and all(v[0] in recorded for v in crash):
+        return viols
+    separate = keys_when_separate(g, lib, ff) if interact else None
+    out = []
+    for v in viols:
+        key = v[0]
+        if v in generic and interact and names_collide(g, lib) and key not in separate:
+            key += '+label-leak'
+        elif v in crash and not (interact and key not in separate):
+            key += '+isolated'
+        out.append((key,) + tuple(v[1:]))
+    return out
+
+
 def check_case(col, g, lib, style, tag):
     ff = get_ff(lib, style, col)
     inp = dict(g.describe(), modifications=[m['name'] if POOL.get(m['name']) == m else m for m in lib], origin=tag)
-    res = run_real(g, ff)
+    res, viols = evaluate(g, lib, ff)
     cand = any(placements(m, g, [k for k, _ in g.atoms]) for m in lib) if g.added else False
     nontrivial = bool(g.added) and cand
     fp = (repr(g.describe()), repr([m['name'] for m in lib]))
@@ -402,77 +550,9 @@ def check_case(col, g, lib, style, tag):
                       removed=[k for k in g.added if k not in res['nodes']],
                       warnings=[r[2] for r in res['records'] if r[0] >= logging.WARNING])
     col.case(fp, nontrivial, sample)
-
-    if res['exc'] is not None:
-        stage, key, where, text = res['exc']
-        col.violation('%s/raises:%s' % (stage, key), where if where != 'unknown' else stage,
-                      'canonicalisation stops with an exception on a well-formed molecule, so its unrecognised '
-                      'atoms are neither explained nor reported', inp, text, 'normal termination')
-        return
-
-    # branches
-    want = set(branches(g))
-    if set(res['branches']) != want or len(res['branches']) != len(want):
-        col.violation('find_ptm_atoms/branches', 'find_ptm_atoms',
-                      'unrecognised atoms are not grouped into connected branches with their anchors', inp,
-                      sorted((sorted(a, key=repr), sorted(b, key=repr)) for a, b in res['branches']),
-                      sorted((sorted(a, key=repr), sorted(b, key=repr)) for a, b in want))
-
-    out_nodes, labels = res['nodes'], res['labels']
-    removed = [k for k in g.added if k not in out_nodes]
-    kept = [k for k in g.added if k in out_nodes]
-    warns = [r[2] for r in res['records'] if r[0] >= logging.WARNING and r[1] == 'unknown-input']
-
-    # removed => reported
-    if removed and not warns:
-        col.violation('fix_ptm/removed-without-warning', FN, 'unrecognised atoms were removed without an '
-                      'unknown-input warning', inp, dict(removed=removed, records=res['records']),
-                      'an unknown-input warning')
-    elif removed:
-        for k in removed:
-            a = g.nodes[k]
-            tokens = ['%s-%s' % (a['atomid'], a['atomname']), '%s%s' % (a['resname'], a['resid'])]
-            if not any(mentioned(t, w) for t in tokens for w in warns):
-                col.violation('fix_ptm/removed-atom-not-reported', FN, 'a removed atom is mentioned by none of the '
-                              'unknown-input warnings (neither the atom nor its residue)', inp,
-                              dict(removed=k, warnings=warns), 'a warning naming %s' % ' or '.join(tokens))
-                break
-
-    # kept => explained
-    if kept:
-        observed = dict(kept={str(k): dict(atomname=out_nodes[k].get('atomname'), labels=labels.get(k))
-                              for k in kept}, removed=removed)
-        if any(not labels.get(k) for k in kept):
-            col.violation('fix_ptm/kept-unlabelled', FN, 'an unrecognised atom is kept without any modification label',
-                          inp, observed, 'labelled with the covering modification, or removed with a warning')
-        if not explain(g, lib, out_nodes, labels, 2):
-            if not explain(g, lib, out_nodes, labels, 0):
-                col.violation('fix_ptm/kept-unexplained', FN, 'the unrecognised atoms that were kept cannot be '
-                              'partitioned into induced placements of library modifications (anchors by name, '
-                              'added atoms by element)', inp, observed,
-                              'atoms without an exact cover are removed with an unknown-input warning')
-            elif not explain(g, lib, out_nodes, labels, 1):
-                col.violation('fix_ptm/canonical-attributes', FN, 'no exact cover is consistent with the atom names '
-                              '/ replace attributes found on the kept atoms', inp,
-                              dict(observed, nodes={str(k): out_nodes[k] for k in out_nodes}),
-                              'every covered atom carries the canonical name and attribute changes of its '
-                              'modification atom')
-            else:
-                col.violation('fix_ptm/residue-labels', FN, 'no exact cover (consistent with the names) has all '
-                              'atoms of the residues it touches labelled with its modifications', inp,
-                              dict(observed, labels={str(k): v for k, v in labels.items()}),
-                              'all atoms of the touched residues carry the modification that covers the atom')
-
-    # cover exists (narrowest reading) => not removed
-    if removed:
-        for key, members in strict_groups(g).items():
-            atoms = set().union(*[c for c, _ in members])
-            gone = sorted((k for k in atoms if k not in out_nodes), key=repr)
-            if gone and strict_cover_exists(g, lib, key, members):
-                col.violation('fix_ptm/removed-although-cover-exists', FN, 'atoms were removed although the known '
-                              'modifications cover their group exactly (within the anchor residues, all anchors '
-                              'covered)', inp, dict(removed=gone, warnings=warns), 'kept and labelled')
-                break
+    if viols:
+        for key, function, what, observed, expected in classify(g, lib, ff, viols, {v['key'] for v in col.violations}):
+            col.violation(key, function, what, inp, observed, expected)
 
 
 # ----------------------------------------------------------------------------------------------------------------
